@@ -286,6 +286,9 @@ class Spec(object):
         r = rng.random()
         path = rng.choice(PATHS[:8]) if r < 0.7 else rng.choice(PATHS)
         n = rng.choice(OPS + ["add", "create", "addNode", "setfield"])
+        if int(r * 1e6) % 5 == 0:
+            # paths in which a segment name occurs at more than one depth
+            path = {"a.b.c": "a.b.a", "a.b": "a.a", "a.c": "b.a.b", ".a.b.": ".b.b.b."}.get(path, path)
         if n == "setfield":
             return [n, rng.choice(["a", "a.b", "b"]), rng.randrange(100)]
         if n in ("add", "change") and rng.random() < 0.03:
